@@ -79,3 +79,15 @@ package poll
 // is idle is unregistered before the next message is handed out (a message put into the buffer of a dead
 // connection would be reported delivered)
 //@ site select assert [C18 C08] selects(w.connect) && selects(w.disconnect)
+
+// The plumbing New sets up: handler and worker share the connect and the disconnect channel, both sized for
+// every connection the transport admits (a departing listener must always be able to report its disconnect:
+// Disconnect panics on a full channel, and a listener that could not report it stays registered), and the
+// registry admits exactly the configured number of connections.
+//@ func New
+//@ props C18
+//@ abstract-calls ^(Listen|WithLabelValues|String)$
+//@ requires config != nil && metrics != nil && config.MaxConnections >= 0 && config.Size >= 0 && config.MaxConnections <= 1000000 && config.Size <= 1000000
+//@ ensures result1 == nil ==> result0 != nil && result0.worker != nil && result0.server != nil
+//@ ensures result1 == nil ==> chancap(result0.worker.disconnect) == config.MaxConnections && chancap(result0.worker.connect) == config.MaxConnections && result0.worker.connections.max == config.MaxConnections
+//@ ensures result1 == nil ==> chancap(result0.sq) == config.Size && result0.worker.sq == result0.sq
